@@ -45,6 +45,10 @@ pub struct Caller {
     /// separate inner service and in-flight count)
     #[serde(default)]
     pub sibling: bool,
+    /// ms between the successful readiness check and the call (other callers may get ready and
+    /// call in between; poll_ready reserves nothing)
+    #[serde(default)]
+    pub ready_gap: u64,
 }
 
 #[derive(Clone, Debug, Serialize, Deserialize)]
@@ -120,14 +124,16 @@ fn case_strategy(tier: Tier) -> BoxedStrategy<AdaptiveCase> {
         ],
         prop::bool::weighted(0.12),
         any::<bool>(),
+        prop_oneof![4 => Just(0u64), 1 => 1u64..=15, 1 => Just(10u64)],
     )
-        .prop_map(|(at, clone, step, cancel_after, drop_unpolled, sibling)| Caller {
+        .prop_map(|(at, clone, step, cancel_after, drop_unpolled, sibling, ready_gap)| Caller {
             at,
             clone,
             step,
             cancel_after,
             drop_unpolled,
             sibling,
+            ready_gap,
         });
     let sim_case = (
         any::<bool>(),
@@ -404,6 +410,7 @@ async fn run_sim_generic<A: ConcurrencyAlgorithm + 'static>(
                     tag: 0xAD00 + i as u64,
                 };
                 let drop_unpolled = c.drop_unpolled;
+                let ready_gap = c.ready_gap;
                 if drop_unpolled {
                     saw_unpolled_drop = true;
                 }
@@ -442,6 +449,9 @@ async fn run_sim_generic<A: ConcurrencyAlgorithm + 'static>(
                         res
                     })
                     .await?;
+                    if ready_gap > 0 {
+                        tokio::time::sleep(Duration::from_millis(ready_gap)).await;
+                    }
                     let call = svc.call(req);
                     if drop_unpolled {
                         // the future is discarded before its first poll
@@ -553,6 +563,9 @@ async fn run_sim_generic<A: ConcurrencyAlgorithm + 'static>(
     }
     if hold.is_some() {
         classes.push("resolved_future_kept_alive");
+    }
+    if callers.iter().any(|c| c.ready_gap > 0) {
+        classes.push("gap_between_readiness_and_call");
     }
     SimVerdict {
         violations: v,
